@@ -183,7 +183,8 @@ def check_witness(w):
 
 
 VERB = __import__('re').compile(r'\\verb(.)(.*?)\1', __import__('re').S)
-LST = __import__('re').compile(r'(\\begin\{lstlisting\}(?:\[[^\]\n]*\])?\n)(.*?)(\\end\{lstlisting\})', __import__('re').S)
+# the header line is taken whole: the language option may itself contain brackets ("```[a][]" gives [language=[a][]])
+LST = __import__('re').compile(r'(\\begin\{lstlisting\}[^\n]*\n)(.*?)(\\end\{lstlisting\})', __import__('re').S)
 
 
 def strip_verbatim(out):
